@@ -20,6 +20,9 @@ def _hook(event, args):
         return
     if event == "open":
         path, mode = args[0], args[1]
+        if mode is None and len(args) > 2 and isinstance(args[2], int):
+            # os.open(path, flags): no mode string - a descriptor opened for writing / creating counts as a write
+            mode = "w" if args[2] & (os.O_WRONLY | os.O_RDWR | os.O_CREAT | os.O_TRUNC | os.O_APPEND) else "r"
         if isinstance(path, (str, bytes, os.PathLike)):
             _events.append(("open", os.fsdecode(path), mode or "r"))
     elif event in ("os.rename", "os.remove", "os.mkdir", "os.rmdir", "os.truncate", "shutil.rmtree"):
